@@ -131,12 +131,40 @@ class Generated(Facet):
     def strategy(self, tier):
         from hypothesis import strategies as st
 
-        return st.builds(lambda s, v: {"spec": s, "via": v}, specs(self.flags), st.sampled_from(self.VIAS))
+        newt = st.sampled_from([["int"], ["str"], ["ann", ["int"], ["IntRange", 0, 3]], ["list", ["bool"]], "abstract", "abstract", "list-of-abstract", "last-abstract"])
+        return st.builds(
+            lambda s, v, ci, fi, nt: {"spec": s, "via": v, "redeclare": [ci, fi, nt]},
+            specs(self.flags), st.sampled_from(self.VIAS), st.integers(0, 20), st.integers(0, 5), newt,
+        )
 
     def run(self, case, rec):
         spec = case["spec"]
         mat = materialise(spec)
         try:
+            rd = case.get("redeclare")
+            with_fields = [c for c in spec["concretes"] if c["fields"] and not any("Dependent" in repr(ft) for _, ft in c["fields"])]
+            if rd and rd[0] % 3 == 0 and with_fields:
+                # the documented way to specialise a production: Prod.__init__.__annotations__[f] = T, then
+                # extract again. A grammar was extracted (and analysed) from the same classes BEFORE the
+                # field was re-declared; the analysis judged is that of the grammar extracted AFTER it
+                from vk.spec import redeclare
+
+                try:
+                    mat.grammar().usable_grammar()
+                except Exception:  # noqa: BLE001
+                    pass
+                c = with_fields[rd[0] % len(with_fields)]
+                fn, old_t = c["fields"][rd[1] % len(c["fields"])]
+                nt = rd[2]
+                a0, a9 = spec["abstracts"][0]["name"], spec["abstracts"][-1]["name"]
+                nt = {"abstract": ["ref", a0], "last-abstract": ["ref", a9], "list-of-abstract": ["list", ["ref", a0]]}.get(nt, nt) if isinstance(nt, str) else nt
+                if spec.get("expansion") and nt[0] != "ref":
+                    # (expansion mode is judged on class-field-only grammars: the docs define no depth
+                    # measure for list / base fields there)
+                    nt = ["ref", a0]
+                if nt != old_t:
+                    spec = redeclare(mat, c["name"], fn, nt)
+                    rec.label("field-redeclared-after-a-first-extraction")
             self._run(spec, mat, rec, via=case.get("via", "fresh"))
         finally:
             mat.cleanup()
